@@ -826,7 +826,13 @@ func FetchWithParallelRangeRequests(client *http.Client, rawURL string, cfg *Fet
 	// Receive loop. `expected` grows as we launch hedges; we exit when
 	// we have a successful result for every chunk OR when we've drained
 	// every launched goroutine and some chunks are still missing.
-	for chunksRemaining > 0 {
+	//
+	// `expected` is the number of results still owed by launched attempts.
+	// Once it reaches zero nobody is left to send, so the loop must not
+	// receive again even if chunks are missing (a chunk whose attempts all
+	// failed while the last message was for some other chunk); the missing
+	// chunk is reported below.
+	for chunksRemaining > 0 && expected > 0 {
 		cr := <-resultCh
 		expected--
 		if cr.err != nil {
